@@ -26,7 +26,7 @@ class Run:
         self.sc = scenario
         self.purpose_map: Dict[tuple, int] = {}
         self.stack = hc.RecordingStack(purpose_of=lambda remote, socket: self.purpose_map.get((remote, socket), socket))
-        self.ex = hc.MonitoredExecutor(name="node", node_id=0, step_limit=5000)
+        self.ex = hc.MonitoredExecutor(name="node", node_id=scenario.get("node_id", 0), step_limit=5000)
         self.ex.network_stack = self.stack
         self.subs = []
         self.gens = []
